@@ -51,7 +51,7 @@ theorem relay_one (s : σ) (d : List Nat) :
     ∃ w, Flagged lostAt w [d] ∧ π (P s d).1 = runWire md5 b (π s) w := by
   cases hl : lostAt s
   · exact ⟨[(false, d)], ⟨rfl, by simp⟩, by simp [runWire, (rel.answers s d hl).1]⟩
-  · exact ⟨[(true, d)], ⟨rfl, fun x hx _ => ⟨s, hl⟩⟩, by simp [runWire, (rel.drops s d hl).1]⟩
+  · exact ⟨[(true, d)], ⟨rfl, fun x hx _ => ⟨s, hl⟩⟩, by simp [runWire, rel.drops s d hl]⟩
 
 include rel in
 theorem tryLoop_wire (h : ReqHdr) (sdu : List Nat) (tries : Nat) : ∀ (p : σ) (c : Client),
@@ -152,6 +152,8 @@ theorem estabChallenge_wire (sent1 : Sent) (p2 : σ) (c1 : Client) (fs1 : List (
   simp only [estabChallenge]
   generalize ({ c1 with s := { c1.s with auth := (chooseAuth cfg.pref ((fs1.getD 1 []).getD 0 0)).getD 256 } } : Client) = c1'
   generalize ([(chooseAuth cfg.pref ((fs1.getD 1 []).getD 0 0)).getD 0 % 16] ++ userField cfg.user) = data
+  split
+  · exact ⟨[], [], by simp, Flagged.nil, rfl⟩
   obtain ⟨w, hf, he⟩ := exchange_wire rel cfg p2 c1' Gen.RmcpFormats.netfnApp 0 Gen.RmcpFormats.cmdGetChallenge data
   rcases hx : exchange md5 P cfg p2 c1' Gen.RmcpFormats.netfnApp 0 Gen.RmcpFormats.cmdGetChallenge data with ⟨p3, c2, s2, o⟩
   rw [hx] at hf he
@@ -220,6 +222,8 @@ theorem requestN_wire (n : Nat) : ∀ (p : σ) (c : Client),
 include rel in
 theorem close_wire (p : σ) (c : Client) : Wire π lostAt md5 b p [] (close md5 P cfg p c) := by
   simp only [close]
+  split
+  · split <;> exact ⟨[], [], rfl, Flagged.nil, rfl⟩
   split
   · exact ⟨[], [], rfl, Flagged.nil, rfl⟩
   · obtain ⟨w, hf, he⟩ := exchange_wire rel cfg p c Gen.RmcpFormats.netfnApp 0 Gen.RmcpFormats.cmdClose (leBytes 4 c.s.sid)
